@@ -282,3 +282,8 @@ MIR = [
     MQ("c14_nms_4", "thorough", _mk_nms(4), "nms = maximal independent set in rank order", "4 boxes", [N], spec_calls=_nms_calls, replay=_replay,
        max_paths=3000000, timeout=3400),
 ]
+
+
+# the intersection NMS measures coverage with: structure of the rotated-box pipeline (same obligation as C08)
+import C08 as _c08
+MIR += [q for q in _c08.MIR if q.name in ('c08_ubox_intersection',)]
